@@ -107,7 +107,7 @@ func partD(o Opts, rng *Rng, res *Result, zctx *zed.Context, U []UVal, base map[
 	pools := buildPools(U)
 	ncases, maxRows := 150, 40
 	if o.Tier == "thorough" {
-		ncases, maxRows = 3000, 150
+		ncases, maxRows = 2200, 150
 	}
 	for it := 0; it < ncases; it++ {
 		c, err := genSortCase(rng, zctx, pools, byText, maxRows, 0)
